@@ -83,13 +83,22 @@ def replay_item(p):
             return sites.make_item(set_cls, name='T' + str(k), parent=par, origin=lf.default_origin_reference)
 
         sites.ref_target = target
+        units_only = mult == 5
+        if units_only:
+            if not (with_units and a._units_settable):
+                return {'reproduced': False, 'ok': True, 'detail': 'combination outside the obligation', 'argmap': argmap}
+            mult = 1
         pv = sites.py_values(a, kind, mult, x, s, arm)
         if pv is None:
             return {'reproduced': False, 'ok': True, 'detail': 'combination outside the obligation', 'argmap': argmap}
         assign, expect = pv
-        a.value = assign
+        if not units_only:
+            a.value = assign
+        else:
+            expect = []
         if with_units and a._units_settable:
-            a.units = 'm'
+            from dliswriter.utils.enums import Unit
+            a.units = Unit('m') if arm else 'm'
         data = write_and_read(df)
     except (ValueError, RuntimeError, TypeError) as e:
         return {'reproduced': False, 'ok': True, 'detail': f'rejected: {type(e).__name__}: {e}', 'argmap': argmap}
